@@ -15,7 +15,16 @@ def _mod(name):
     return f
 
 
+def _git(p):
+    def f():
+        from . import p_git
+        return p_git.make(p)
+    return f
+
+
 REGISTRY = {
+    "C14": _git("C14"),
+    "C15": _git("C15"),
     "C10": _mod("p_bs"),
     "C18": _mod("p_stats"),
     "C11": _mod("p_tbs"),
